@@ -4,6 +4,16 @@ importable by C25/C26/C27/C39.
 Everything is a JSON-able *spec*; the pydra objects are built from it on demand.
 
 SPEC  = {"executable": "tool" | ["tool", "sub", ...],
+         "executable_seq": "tuple",                   # optional: a multi-part executable is handed
+                                                      # to pydra as a tuple instead of a list
+                                                      # (its type is str | Sequence[str]); needs
+                                                      # "style": "class" (shell.define(<tuple>) is
+                                                      # not part of the functional form)
+         "style": "class",                            # optional: the definition is written in the
+                                                      # canonical class form (@shell.define on a
+                                                      # class with annotated shell.arg attributes
+                                                      # and an `executable` attribute) instead of
+                                                      # shell.define(executable, inputs={...})
          "fields": [FIELD, ...],                      # definition order is significant
          "xor":     [["a", "b", None], ...],          # optional: passed to shell.define(xor=)
          "outputs": [{"name": "out", "path_template": "{a}_out", "argstr": "-o",
@@ -28,7 +38,8 @@ VALUES = {"a": <json value>, ...}                     # a missing name keeps the
          file is created in the working directory given to kwargs()/resolved()),
          list[...] -> [..], multi[str] -> [..] or a single "s"; None for optional fields
 CASE   = {"spec": SPEC, "values": VALUES, "append_args": [str, ...],      (what the checks store)
-          "executable_override": str | [str, ...]}    # optional: T(executable=...) at call time
+          "executable_override": str | [str, ...],    # optional: T(executable=...) at call time
+          "executable_override_seq": "tuple"}         # optional: ... given as a tuple
 
     T = build(spec)                       -> the `shell.define(...)` class  (ValueError etc. from
                                              pydra propagate: the caller decides what they mean)
@@ -39,11 +50,15 @@ CASE   = {"spec": SPEC, "values": VALUES, "append_args": [str, ...],      (what 
     task = make_task(case, workdir)       -> T(**kw, append_args=...)
 
 Strategies (Hypothesis): specs(...), values_for(spec, alphabet), append_args(alphabet),
-cases(alphabet, assignments=1|k, **specs-kwargs).  Alphabets: WORDS (C22), MILD (words and blanks),
-SAFE (shell metacharacters and unicode that POSIX tokenisation leaves alone: no blanks, quotes,
-backslash), HOSTILE (DESIGN 3.5: blanks, tab, quotes, backslash, metacharacters, unicode).
+cases(alphabet, assignments=1|k, exe_seqs=, verbatim=, **specs-kwargs).  Alphabets: WORDS (C22),
+MILD (words and blanks), SAFE (shell metacharacters, unicode letters and the whitespace characters
+outside the POSIX blanks -- NO-BREAK SPACE, IDEOGRAPHIC SPACE, EM SPACE, LINE SEPARATOR, NEL, VT,
+FF, US -- all of which POSIX tokenisation leaves alone: no blank/tab, quotes, backslash), HOSTILE
+(DESIGN 3.5: blanks, tab, quotes, backslash, metacharacters, unicode incl. non-POSIX whitespace),
+QUOTING (dense in the characters quoting rules care about: ' " backslash blank $ ` !; meant for the
+arguments that reach argv verbatim: append_args and executables, see `verbatim=`).
 Helpers for counters: position_kinds(spec), is_set(field, value), slots_collide(spec),
-plain_char(ch), has_special(strings).
+plain_char(ch), has_special(strings), has_uws(strings), executable_form(case).
 """
 from __future__ import annotations
 
@@ -100,8 +115,12 @@ def build(spec: dict, name: str = CLASS_NAME, **define_kwargs):
 
     from fileformats.generic import File
 
-    inputs = {f["name"]: shell.arg(**arg_kwargs(f)) for f in spec["fields"]}
     exe = spec["executable"]
+    if spec.get("style") == "class":
+        return build_class(spec, name, **define_kwargs)
+    if spec.get("executable_seq") == "tuple":
+        raise ValueError("generator bug: a tuple executable needs the class form of the definition")
+    inputs = {f["name"]: shell.arg(**arg_kwargs(f)) for f in spec["fields"]}
     if spec.get("xor"):
         define_kwargs.setdefault("xor", [list(x) for x in spec["xor"]])
     if spec.get("outputs"):
@@ -112,6 +131,49 @@ def build(spec: dict, name: str = CLASS_NAME, **define_kwargs):
             for o in spec["outputs"]})
     return shell.define(list(exe) if isinstance(exe, (list, tuple)) else exe, inputs=inputs,
                         name=name, **define_kwargs)
+
+
+def exe_value(exe, seq=None):
+    """the executable as it is handed to pydra: str, list or (seq == "tuple") tuple"""
+    if isinstance(exe, (list, tuple)):
+        return tuple(exe) if seq == "tuple" else list(exe)
+    return exe
+
+
+def build_class(spec: dict, name: str = CLASS_NAME, **define_kwargs):
+    """SPEC -> shell task class through the canonical class form:
+
+        @shell.define
+        class Tool(shell.Task["Tool.Outputs"]):
+            executable = <str | list | tuple>
+            a: <type> = shell.arg(argstr=..., position=..., ...)
+            class Outputs(shell.Outputs):
+                out: File = shell.outarg(path_template=..., ...)
+    """
+    import types
+
+    from fileformats.generic import File
+    from pydra.compose import shell
+
+    ns, ann = {"executable": exe_value(spec["executable"], spec.get("executable_seq"))}, {}
+    for f in spec["fields"]:
+        kw = arg_kwargs(f)
+        ann[f["name"]] = kw.pop("type")
+        ns[f["name"]] = shell.arg(**kw)
+    ns["__annotations__"] = ann
+    out_ns, out_ann = {}, {}
+    for o in spec.get("outputs") or []:
+        out_ann[o["name"]] = File
+        out_ns[o["name"]] = shell.outarg(path_template=o["path_template"],
+                                         argstr=o.get("argstr", ""), position=o.get("position"),
+                                         **({"help": o["help"]} if "help" in o else {}))
+    out_ns["__annotations__"] = out_ann
+    ns["Outputs"] = type("Outputs", (shell.Outputs,), out_ns)
+    klass = types.new_class(name, (shell.Task[f"{name}.Outputs"],),
+                            exec_body=lambda n: n.update(ns))
+    if spec.get("xor"):
+        define_kwargs.setdefault("xor", [list(x) for x in spec["xor"]])
+    return shell.define(klass, **define_kwargs) if define_kwargs else shell.define(klass)
 
 
 def _file(workdir, base: str) -> str:
@@ -158,7 +220,8 @@ def make_task(case: dict, workdir, T=None):
     if case.get("append_args") is not None:
         kw["append_args"] = list(case["append_args"])
     if case.get("executable_override") is not None:
-        kw["executable"] = case["executable_override"]
+        kw["executable"] = exe_value(case["executable_override"],
+                                     case.get("executable_override_seq"))
     return T(**kw)
 
 
@@ -169,15 +232,36 @@ def effective_spec(case) -> dict:
     return case["spec"]
 
 
+def executable_form(case) -> str:
+    """how the executable the task instance really uses was handed to pydra: str/list/tuple"""
+    if case.get("executable_override") is not None:
+        exe, seq = case["executable_override"], case.get("executable_override_seq")
+    else:
+        exe, seq = case["spec"]["executable"], case["spec"].get("executable_seq")
+    if not isinstance(exe, (list, tuple)):
+        return "str"
+    return "tuple" if seq == "tuple" else "list"
+
+
 # ---------------------------------------------------------------------------- alphabets
 WORD_CHARS = "abcxyz019_.+"
 WORDS = dict(name="words", chars=WORD_CHARS, min=1, max=4)
 MILD = dict(name="mild", chars=WORD_CHARS + "  ", min=1, max=6)
-# survive POSIX tokenisation unquoted (no blanks, quotes, backslash) but are shell metacharacters
-SAFE = dict(name="safe", chars=WORD_CHARS + "$*;&|<>()~#=,:%@!?^-" + "éü中α", min=1, max=6)
+# Whitespace for str.split()/str.strip()/str.isspace()/regex \s, but NOT for POSIX word splitting
+# (shlex, sh: blank, tab, newline): NO-BREAK SPACE, IDEOGRAPHIC SPACE, EM SPACE, LINE SEPARATOR,
+# NEL, VT, FF, UNIT SEPARATOR.  An argument holding one of them is still one argument.
+UWS_CHARS = "\u00a0\u3000\u2003\u2028\x85\x0b\x0c\x1f"
+# survive POSIX tokenisation unquoted (no blanks, quotes, backslash) but are shell metacharacters,
+# unicode letters or non-POSIX whitespace
+SAFE = dict(name="safe", chars=WORD_CHARS + "$*;&|<>()~#=,:%@!?^-" + "éü中α" + UWS_CHARS,
+            min=1, max=6)
 HOSTILE = dict(name="hostile",
-               chars="abx01_." + " \t'\"\\" * 3 + "$*;&|<>()" + "é中", min=1, max=7)
-ALPHABETS = {a["name"]: a for a in (WORDS, MILD, SAFE, HOSTILE)}
+               chars="abx01_." + " \t'\"\\" * 3 + "$*;&|<>()" + "é中" + "\u00a0\u3000\x0c",
+               min=1, max=7)
+# dense in what quoting rules distinguish: inside '...' nothing is special, inside "..." the
+# backslash, $, ` (and for interactive shells !) are, outside both everything is
+QUOTING = dict(name="quoting", chars="ab" + "''\\\\\"" + " $`!", min=1, max=5)
+ALPHABETS = {a["name"]: a for a in (WORDS, MILD, SAFE, HOSTILE, QUOTING)}
 
 
 def plain_char(ch: str) -> bool:
@@ -187,6 +271,11 @@ def plain_char(ch: str) -> bool:
 
 def has_special(strings) -> bool:
     return any(not plain_char(ch) for s in strings for ch in s)
+
+
+def has_uws(strings) -> bool:
+    """some string contains whitespace that is not a POSIX blank (see UWS_CHARS)"""
+    return any(ch in UWS_CHARS for s in strings for ch in s)
 
 
 def text(alpha, for_file=False):
@@ -291,9 +380,12 @@ def positions(draw, n):
 @st.composite
 def specs(draw, min_fields=1, max_fields=5, types=TYPES, positioned=True, templated=True,
           executables=("tool", "tool", ["tool", "sub"]), seps=(None, " ", ",", ":"),
-          defined_only=True):
+          defined_only=True, styles=("function",), exe_seqs=("list",)):
     """A SPEC.  `defined_only` keeps away from combinations the C22 statement leaves open
-    (list joined by a blank separator inside a template; see vlib/ref/argv.py)."""
+    (list joined by a blank separator inside a template; see vlib/ref/argv.py).
+    `styles`: how the definition is written ("function" = shell.define(executable, inputs=...),
+    "class" = decorated class); `exe_seqs`: the sequence type of a multi-part executable ("list",
+    "tuple"; a tuple forces the class form, the functional form takes str/list only)."""
     n = draw(st.sampled_from([k for k in (1, 2, 2, 3, 3, 3, 4, 4, 4, 5, 5, 5, 6, 7, 8)
                               if min_fields <= k <= max_fields] or [min_fields]))
     names = draw(st.permutations(NAMES))[:n]
@@ -332,24 +424,38 @@ def specs(draw, min_fields=1, max_fields=5, types=TYPES, positioned=True, templa
             elif r == 6 and tname in ("str", "int", "float"):
                 f["default"] = {"str": "dflt", "int": 5, "float": 0.25}[tname]
         fields.append(f)
-    return dict(executable=draw(st.sampled_from(list(executables))), fields=fields)
+    spec = dict(executable=draw(st.sampled_from(list(executables))), fields=fields)
+    if len(styles) > 1 or styles[0] != "function":
+        if draw(st.sampled_from(list(styles))) == "class":
+            spec["style"] = "class"
+    if len(exe_seqs) > 1 and isinstance(spec["executable"], list):
+        if draw(st.sampled_from(list(exe_seqs))) == "tuple":
+            spec["executable_seq"], spec["style"] = "tuple", "class"
+    return spec
 
 
 @st.composite
-def one_case(draw, spec, alpha):
-    case = dict(spec=spec, values=draw(values_for(spec, alpha)), append_args=draw(append_args(alpha)))
+def one_case(draw, spec, alpha, exe_seqs=("list",), verbatim=None):
+    """`verbatim`: alphabet of the strings that reach argv without passing through an argstr
+    (append_args, executable given at instantiation); default: the same as for the values."""
+    valpha = alpha if verbatim is None else verbatim
+    case = dict(spec=spec, values=draw(values_for(spec, alpha)), append_args=draw(append_args(valpha)))
     if draw(st.sampled_from([1] + [0] * 9)):  # executable given at instantiation
         case["executable_override"] = draw(st.one_of(
-            text(alpha), st.lists(text(alpha), min_size=1, max_size=2)))
+            text(valpha), st.lists(text(valpha), min_size=1, max_size=2)))
+        if len(exe_seqs) > 1 and isinstance(case["executable_override"], list):
+            if draw(st.sampled_from(list(exe_seqs))) == "tuple":
+                case["executable_override_seq"] = "tuple"
     return case
 
 
 @st.composite
-def cases(draw, alpha=WORDS, assignments=1, **spec_kw):
+def cases(draw, alpha=WORDS, assignments=1, verbatim=None, **spec_kw):
     spec = draw(specs(**spec_kw))
+    seqs = spec_kw.get("exe_seqs", ("list",))
     if assignments == 1:
-        return draw(one_case(spec, alpha))
-    return [draw(one_case(spec, alpha)) for _ in range(assignments)]
+        return draw(one_case(spec, alpha, seqs, verbatim))
+    return [draw(one_case(spec, alpha, seqs, verbatim)) for _ in range(assignments)]
 
 
 # ---------------------------------------------------------------------------- descriptions
